@@ -415,6 +415,13 @@ func runC07(a *runArgs) error {
 					skip = true
 				}
 			}
+			for i, p := range f.Params {
+				// a defined type with a composite underlying type against a composite parameter type is
+				// unified through its underlying type (inexact unification): outside the modelled fragment
+				if x := args[i]; x.Const == "" && p.K != "param" && p.K != "atom" && x.T.K == "atom" && (x.T.Name == "gp.MySlice" || x.T.Name == "gp.MyMap") {
+					skip = true
+				}
+			}
 			if skip {
 				continue
 			}
